@@ -16,6 +16,12 @@
 //!   C13 hashswu <id> <dst> <msg>   (same with SWUMap<P>),   C13 ehash <id> <dst> <msg>  (TE, Elligator2Map<P>)
 //!   C13 rfcvec.xmd <dst> <msg> <len>                       => uniform_bytes of the RFC's JSON vector
 //!   C13 rfcvec.hash <id> <dst> <msg> <u0;u1> <Q0> <Q1>      => P of the RFC's JSON vector (`Q` = `x/y`)
+//!   C13 h2f_xof <p> <bits> <m> <sec> <stream>                => c0[,c1…] <bytes requested> | panic
+//!                                                              field_hashers::hash_to_field::<F, H: XofReader, sec>(&mut h), `h` = a reader that
+//!                                                              yields the GIVEN byte stream, then zeros, and counts the bytes requested
+//!   C13 chk.wb <id> <gen>                                  => <check_parameters>     WBMap::<P>::check_parameters again, with the generator of the
+//!                                                              isogenous curve (`inf` | `x/y`) that `check_parameters` feeds to `IsogenyMap::apply`
+//!   C13 new <id>                                           => ok | err | panic       MapToCurveBasedHasher::<_, DefaultFieldHasher<Sha256,128>, Map<P>>::new(dst)
 //! `ExpanderXmd` is private to ark-ff: it is observed through `hash_to_field` (with `SEC_PARAM = 0` over F_251,
 //! `L = 1`, every output byte is seen modulo 251 at every requested length).
 //! The exceptional inputs of the maps (u = 0, Z·u² = −1, u with SWU(u) a pole of the isogeny, u with gx1 = 0)
@@ -37,7 +43,7 @@ use ark_ec::{
     AffineRepr, CurveConfig,
 };
 use ark_ff::{
-    field_hashers::{DefaultFieldHasher, HashToField},
+    field_hashers::{hash_to_field as hash_to_field_xof, DefaultFieldHasher, HashToField},
     Field, Fp2, Fp2Config, Fp3, Fp3Config, MontFp, One, PrimeField, Zero,
 };
 use ark_test_curves::bls12_381 as bls;
@@ -51,7 +57,7 @@ use arkharness::zoo::{FDBls381Fq, FDP64m59, FDSecp384r1, FDT127, FDT13, FDT251, 
 pub struct F101Config;
 pub type FDT101x = ark_ff::Fp<ark_ff::MontBackend<F101Config, 1>, 1>;
 use num_bigint::BigUint;
-use sha2::{Digest, Sha256};
+use sha2::{digest::XofReader, Digest, Sha256};
 
 // ------------------------------------------------------------------ printing
 fn pf<F: PrimeField>(x: &F) -> String { hex_limbs(x.into_bigint().as_ref()) }
@@ -194,6 +200,120 @@ fn h2f_lines(rng: &mut Rng, thorough: bool, out: &mut Out) {
         h2f_ns!(out, f3, FDT251, 0, [33, 8160]);
         h2f_ns!(out, f3, bls::Fq, 128, [127]);
     }
+}
+
+// ------------------------------------------------------------------ hash_to_field from an XOF reader
+/// a `digest::XofReader` that yields a given byte stream, then zeros; `requested` = total number of bytes asked for
+struct StreamXof<'a> { data: &'a [u8], pos: usize, requested: usize }
+impl XofReader for StreamXof<'_> {
+    fn read(&mut self, buffer: &mut [u8]) {
+        self.requested += buffer.len();
+        for b in buffer.iter_mut() { *b = self.data.get(self.pos).copied().unwrap_or(0); self.pos += 1; }
+    }
+}
+fn xof_one<F: Field, const SEC: usize>(out: &mut Out, stream: &[u8]) {
+    let r = guarded(|| {
+        let mut h = StreamXof { data: stream, pos: 0, requested: 0 };
+        let e: F = hash_to_field_xof::<F, _, SEC>(&mut h);
+        format!("{} {:x}", fe(&e), h.requested)
+    });
+    out.line(
+        &format!("C13 h2f_xof {} {:x} {:x} {:x} {}", pmod::<F>(), F::BasePrimeField::MODULUS_BIT_SIZE, F::extension_degree(), SEC, hb(stream)),
+        &r,
+    );
+}
+/// `v` as `len` big-endian bytes (`None` when it does not fit)
+fn be_fixed(v: &BigUint, len: usize) -> Option<Vec<u8>> {
+    let b = v.to_bytes_be();
+    let b: &[u8] = if b == [0u8] { &[] } else { &b };
+    if b.len() > len { return None; }
+    let mut r = vec![0u8; len - b.len()];
+    r.extend_from_slice(b);
+    Some(r)
+}
+/// the byte streams fed to `hash_to_field::<F, _, SEC>`: `len` = bytes per base-prime-field element (used only to SHAPE the inputs)
+fn xof_streams<F: Field>(rng: &mut Rng, len: usize, extra: usize) -> Vec<Vec<u8>> {
+    let m = F::extension_degree() as usize;
+    let total = m * len;
+    let mut v: Vec<Vec<u8>> = Vec::new();
+    if len > 2048 {
+        // the slice `&mut alloca[0..len]` panics before anything is read
+        v.push(vec![]);
+        v.push((0..16).map(|_| rng.next() as u8).collect());
+        v.push(vec![0xff; 64]);
+        return v;
+    }
+    let p = BigUint::from_bytes_le(&F::BasePrimeField::MODULUS.as_ref().iter().flat_map(|l| l.to_le_bytes()).collect::<Vec<u8>>());
+    let one = BigUint::from(1u32);
+    let top = (&one << (8 * len)) - &one;                      // 256^len − 1
+    let kmax = &top / &p;                                      // largest multiple of p that fits: kmax·p
+    let bits = F::BasePrimeField::MODULUS_BIT_SIZE as usize;
+    let mut vals: Vec<BigUint> = vec![
+        BigUint::from(0u32), one.clone(), &p - &one, p.clone(), &p + &one, &p + &p - &one, &p + &p, &p + &p + &one,
+        top.clone(), &top - &one, &kmax * &p, &kmax * &p - &one, &kmax * &p + &one, &top + &one - &p.clone().min(top.clone()),
+        &one << (bits - 1), &one << bits, (&one << bits) - &one, &one << (8 * len - 1).max(0), &one << (4 * len),
+        (&kmax / 2u32) * &p, (&kmax / 2u32) * &p + &p - &one,
+    ];
+    vals.retain(|x| x <= &top);
+    let chunks: Vec<Vec<u8>> = vals.iter().filter_map(|x| be_fixed(x, len)).collect();
+    // a recognisable filler for "the other chunks": chunk j = 0xa0+j … j+1
+    let filler = |j: usize| -> Vec<u8> {
+        let mut c = vec![0u8; len];
+        if len > 0 { c[len - 1] = (j + 1) as u8; c[0] = if len > 1 { 0xa0 + j as u8 } else { (j + 1) as u8 }; }
+        c
+    };
+    // 1. every chunk carries the same edge value
+    for c in &chunks { v.push((0..m).flat_map(|_| c.clone()).collect()); }
+    // 2. the edge value at one position only (which chunk goes to which coordinate)
+    if m > 1 {
+        for c in &chunks { for i in 0..m { v.push((0..m).flat_map(|j| if j == i { c.clone() } else { filler(j) }).collect()); } }
+    }
+    // 3. chunk boundaries
+    v.push((0..m).flat_map(filler).collect());
+    v.push((0..total).map(|j| (j % 251) as u8).collect());
+    v.push((0..total).map(|j| if j % len.max(1) == 0 { 1 } else { 0 }).collect());          // leading byte of each chunk
+    v.push((0..total).map(|j| if (j + 1) % len.max(1) == 0 { 1 } else { 0 }).collect());    // trailing byte of each chunk
+    // 4. lengths: longer than needed (the surplus must not be read), shorter (the reader zero-fills)
+    let pat = |n: usize| -> Vec<u8> { (0..n).map(|j| if j < total { (j % 255) as u8 + 1 } else { 0xff }).collect() };
+    let mut ls = vec![total + 1, total + len, total + 2048, total.saturating_sub(1), total.saturating_sub(len), total.saturating_sub(len) + 1, len / 2, 1, 0];
+    if m > 1 { ls.push(len); ls.push(len + 1); ls.push(total - len - 1); }
+    for n in ls { v.push(pat(n)); }
+    // 5. seeded random: exact length mostly, sometimes shorter / longer
+    for _ in 0..extra {
+        let n = match rng.below(8) { 0 => rng.below(total as u64 + 1) as usize, 1 => total + rng.below(len as u64 + 2) as usize, _ => total };
+        let mut s: Vec<u8> = (0..n).map(|_| rng.next() as u8).collect();
+        // sometimes clear the top bytes of every chunk so that values below p occur for L ≫ log p
+        if rng.below(3) == 0 { for (j, b) in s.iter_mut().enumerate() { if j % len.max(1) < len.saturating_sub((bits + 7) / 8) { *b = 0; } } }
+        v.push(s);
+    }
+    // order-preserving removal of duplicates (tiny L: many edge values coincide)
+    let mut seen = std::collections::HashSet::new();
+    v.retain(|s| seen.insert(s.clone()));
+    v
+}
+macro_rules! xof_secs {
+    ($out:expr, $rng:expr, $extra:expr, $F:ty, [$($sec:literal),*]) => {
+        $( {
+            let len = (<$F as Field>::BasePrimeField::MODULUS_BIT_SIZE as usize + $sec + 7) / 8;
+            for st in xof_streams::<$F>($rng, len, $extra) { xof_one::<$F, $sec>($out, &st); }
+        } )*
+    };
+}
+fn xof_lines(rng: &mut Rng, thorough: bool, out: &mut Out) {
+    let e = if thorough { 400 } else { 12 };
+    // SEC_PARAM: 0 / 1 (L = ⌈bits/8⌉ or one more), the suites' 128, L = 63 / 64 / 64 / 65 over the BLS12-381 base field,
+    // 16384: L = 2049 or more for every field: the slice of the 2048-byte stack buffer panics
+    xof_secs!(out, rng, e, bls::Fq, [0, 1, 128, 123, 124, 131, 132, 16003, 16004, 16384]);   // 16003: L = 2048 (the whole buffer), 16004: L = 2049
+    xof_secs!(out, rng, e, bls::Fr, [0, 1, 128, 123, 124, 131, 132, 16384]);
+    xof_secs!(out, rng, e, ark_test_curves::secp256k1::Fq, [0, 1, 128, 123, 124, 131, 132, 16384]);
+    xof_secs!(out, rng, e, ark_test_curves::mnt4_753::Fq, [0, 1, 128, 123, 124, 131, 132, 16384]);
+    xof_secs!(out, rng, e, FDT251, [0, 1, 128, 123, 124, 131, 132, 16384]);
+    xof_secs!(out, rng, e, FDT127, [0, 1, 128, 123, 124, 131, 132, 16384]);
+    xof_secs!(out, rng, e, FDT13, [0, 1, 128, 123, 124, 131, 132, 16372, 16373, 16384]);              // 4 + 16372 = 16376 → L = 2047 … 16373 → 2048
+    xof_secs!(out, rng, e, FDP64m59, [0, 1, 128, 123, 124, 131, 132, 16384]);
+    xof_secs!(out, rng, e, bls::Fq2, [0, 1, 128, 123, 124, 131, 132, 16003, 16004, 16384]);
+    xof_secs!(out, rng, e, F49, [0, 1, 128, 123, 124, 131, 132, 16384]);
+    xof_secs!(out, rng, e, bls::Fq6, [0, 1, 128, 123, 124, 131, 132, 16384]);                         // m = 6
 }
 
 // ------------------------------------------------------------------ parity
@@ -534,6 +654,101 @@ impl Elligator2Config for JubjubEll {
     const COEFF_A_OVER_COEFF_B: JFq = MontFp!("9628519018340474679875156334893438995974717701127060143092098445975442038616");
 }
 
+// ------------------------------------------------------------------ INVALID configurations (one documented condition violated each):
+// what `check_parameters`, `map_to_curve` and `MapToCurveBasedHasher::new` do with them.  Every check in the three
+// `check_parameters` is a `debug_assert!`; this harness is built with `debug-assertions = false`.
+// SWU on y² = x³ + x + 63 over F_127 with ZETA = 4 (a non-zero square) / ZETA = 0
+toy_sw!(ToyZsq127, FDT127, MontFp!("1"), MontFp!("63"), MontFp!("62"), MontFp!("70"), 1);
+impl SWUConfig for ToyZsq127 { const ZETA: FDT127 = MontFp!("4"); }
+toy_sw!(ToyZ0x127, FDT127, MontFp!("1"), MontFp!("63"), MontFp!("62"), MontFp!("70"), 1);
+impl SWUConfig for ToyZ0x127 { const ZETA: FDT127 = MontFp!("0"); }
+// SWU on y² = x³ + x (COEFF_B = 0), ZETA = −1
+toy_sw!(ToyB0x127, FDT127, MontFp!("1"), MontFp!("0"), MontFp!("1"), MontFp!("16"), 1);
+impl SWUConfig for ToyB0x127 { const ZETA: FDT127 = MontFp!("-1"); }
+// WB: the curve of `ToyTors127` with a generator outside the kernel of the 2-isogeny, (2, 11) ↦ (119, 121)
+toy_sw!(ToyTorsG127, FDT127, MontFp!("114"), MontFp!("12"), MontFp!("2"), MontFp!("11"), 1);
+impl SWUConfig for ToyTorsG127 { const ZETA: FDT127 = MontFp!("3"); }
+// … the same with ZETA = 4 (a square): invalid SWU parameters under a correct isogeny
+toy_sw!(ToyTorsZsq127, FDT127, MontFp!("114"), MontFp!("12"), MontFp!("2"), MontFp!("11"), 1);
+impl SWUConfig for ToyTorsZsq127 { const ZETA: FDT127 = MontFp!("4"); }
+// … and with GENERATOR = the point at infinity (`IsogenyMap::apply` on `xy() == None`, reached through `check_parameters`)
+pub struct ToyTorsInf127;
+impl CurveConfig for ToyTorsInf127 {
+    const COFACTOR: &'static [u64] = &[1];
+    const COFACTOR_INV: FDT127 = MontFp!("1");
+    type BaseField = FDT127;
+    type ScalarField = FDT127;
+}
+impl sw::SWCurveConfig for ToyTorsInf127 {
+    const COEFF_A: FDT127 = MontFp!("114");
+    const COEFF_B: FDT127 = MontFp!("12");
+    const GENERATOR: sw::Affine<Self> = sw::Affine::identity();
+}
+impl SWUConfig for ToyTorsInf127 { const ZETA: FDT127 = MontFp!("3"); }
+/// the 2-isogeny `TOY_ISO_2` between other configuration types; `$yn0` = constant coefficient of the y numerator (11 = correct)
+macro_rules! toy_iso2 {
+    ($D:ty, $C:ty, $yn0:literal) => {
+        IsogenyMap::<'static, $D, $C> {
+            x_map_numerator: &[MontFp!("117"), MontFp!("-1"), MontFp!("1")],
+            x_map_denominator: &[MontFp!("-1"), MontFp!("1")],
+            y_map_numerator: &[MontFp!($yn0), MontFp!("-2"), MontFp!("1")],
+            y_map_denominator: &[MontFp!("1"), MontFp!("-2"), MontFp!("1")],
+        }
+    };
+}
+// codomain y² = x³ + 37x + 82 three more times (one `WBConfig` per isogenous-curve type)
+toy_sw!(ToyIso2Pert127, FDT127, MontFp!("37"), MontFp!("82"), MontFp!("0"), MontFp!("0"), 1);
+impl WBConfig for ToyIso2Pert127 {
+    type IsogenousCurve = ToyTorsG127;
+    // y numerator x² − 2x + 12 instead of x² − 2x + 11: (2, 11) ↦ (119, 5), NOT on the codomain
+    const ISOGENY_MAP: IsogenyMap<'static, ToyTorsG127, ToyIso2Pert127> = toy_iso2!(ToyTorsG127, ToyIso2Pert127, "12");
+}
+toy_sw!(ToyIso2Zsq127, FDT127, MontFp!("37"), MontFp!("82"), MontFp!("0"), MontFp!("0"), 1);
+impl WBConfig for ToyIso2Zsq127 {
+    type IsogenousCurve = ToyTorsZsq127;
+    const ISOGENY_MAP: IsogenyMap<'static, ToyTorsZsq127, ToyIso2Zsq127> = toy_iso2!(ToyTorsZsq127, ToyIso2Zsq127, "11");
+}
+toy_sw!(ToyIso2Inf127, FDT127, MontFp!("37"), MontFp!("82"), MontFp!("0"), MontFp!("0"), 1);
+impl WBConfig for ToyIso2Inf127 {
+    type IsogenousCurve = ToyTorsInf127;
+    const ISOGENY_MAP: IsogenyMap<'static, ToyTorsInf127, ToyIso2Inf127> = toy_iso2!(ToyTorsInf127, ToyIso2Inf127, "11");
+}
+macro_rules! toy_ell {
+    ($name:ident, $F:ty, $tea:expr, $ted:expr, $gx:expr, $gy:expr, $ma:expr, $mb:expr, $z:expr, $ksq:expr, $jonk:expr) => {
+        pub struct $name;
+        impl CurveConfig for $name {
+            const COFACTOR: &'static [u64] = &[1];
+            const COFACTOR_INV: FDT13 = MontFp!("1");
+            type BaseField = $F;
+            type ScalarField = FDT13; // placeholder; not used by the map
+        }
+        impl te::TECurveConfig for $name {
+            const COEFF_A: $F = $tea;
+            const COEFF_D: $F = $ted;
+            const GENERATOR: te::Affine<Self> = te::Affine::new_unchecked($gx, $gy);
+            type MontCurveConfig = Self;
+        }
+        impl te::MontCurveConfig for $name {
+            const COEFF_A: $F = $ma;
+            const COEFF_B: $F = $mb;
+            type TECurveConfig = Self;
+        }
+        impl Elligator2Config for $name {
+            const Z: $F = $z;
+            const ONE_OVER_COEFF_B_SQUARE: $F = $ksq;
+            const COEFF_A_OVER_COEFF_B: $F = $jonk;
+        }
+    };
+}
+// `ToyEll127` with Z = 4 (a non-zero square) / Z = 0
+toy_ell!(EllZsq127, FDT127, MontFp!("7"), MontFp!("3"), MontFp!("0"), MontFp!("1"), MontFp!("5"), MontFp!("1"), MontFp!("4"), MontFp!("1"), MontFp!("5"));
+toy_ell!(EllZ0x127, FDT127, MontFp!("7"), MontFp!("3"), MontFp!("0"), MontFp!("1"), MontFp!("5"), MontFp!("1"), MontFp!("0"), MontFp!("1"), MontFp!("5"));
+// `ToyEll127` with Montgomery COEFF_B = 0 (1/B² does not exist; the two derived constants are kept)
+toy_ell!(EllB0x127, FDT127, MontFp!("7"), MontFp!("3"), MontFp!("0"), MontFp!("1"), MontFp!("5"), MontFp!("0"), MontFp!("-1"), MontFp!("1"), MontFp!("5"));
+// `ToyEll101` (1/B² = 80, A/B = 56) with ONE_OVER_COEFF_B_SQUARE = 81 / COEFF_A_OVER_COEFF_B = 57
+toy_ell!(EllKsq101, FDT101x, MontFp!("-1"), MontFp!("12"), MontFp!("23"), MontFp!("24"), MontFp!("76"), MontFp!("23"), MontFp!("2"), MontFp!("81"), MontFp!("56"));
+toy_ell!(EllJonk101, FDT101x, MontFp!("-1"), MontFp!("12"), MontFp!("23"), MontFp!("24"), MontFp!("76"), MontFp!("23"), MontFp!("2"), MontFp!("80"), MontFp!("57"));
+
 fn chk<M: MapToCurve<G>, G: ark_ec::CurveGroup>() -> String {
     guarded(|| match M::check_parameters() { Ok(()) => "ok".into(), Err(_) => "err".into() })
 }
@@ -606,6 +821,20 @@ fn ehash_line<P: Elligator2Config>(out: &mut Out, id: &str, dst: &[u8], msg: &[u
     });
     out.line(&format!("C13 ehash {} {} {}", id, hb(dst), hb(msg)), &r);
 }
+
+/// `check_parameters` of a WB configuration once more, with the point it feeds to `IsogenyMap::apply` on the line
+fn chk_wb<P: WBConfig>(out: &mut Out, id: &str) {
+    let g = match <P::IsogenousCurve as sw::SWCurveConfig>::GENERATOR.xy() { None => "inf".to_string(), Some((x, y)) => format!("{}/{}", fe(&x), fe(&y)) };
+    out.line(&format!("C13 chk.wb {} {}", id, g), &chk::<WBMap<P>, sw::Projective<P>>());
+}
+/// `MapToCurveBasedHasher::new(dst)` (documented to fail on invalid parameters through `check_parameters()?`)
+fn new_line<G: ark_ec::CurveGroup, M: MapToCurve<G>>(out: &mut Out, id: &str) {
+    let r = guarded(|| match MapToCurveBasedHasher::<G, H2F, M>::new(b"QUUX-V01-CS02-with-expander") { Ok(_) => "ok".into(), Err(_) => "err".into() });
+    out.line(&format!("C13 new {}", id), &r);
+}
+fn new_sw<P: SWUConfig>(out: &mut Out, id: &str) { new_line::<sw::Projective<P>, SWUMap<P>>(out, id); }
+fn new_wb<P: WBConfig>(out: &mut Out, id: &str) { new_line::<sw::Projective<P>, WBMap<P>>(out, id); }
+fn new_ell<P: Elligator2Config>(out: &mut Out, id: &str) { new_line::<te::Projective<P>, Elligator2Map<P>>(out, id); }
 
 fn sw_suite<P: WBConfig>(rng: &mut Rng, out: &mut Out, id: &str, swid: &str, n_rand: usize, n_hash: usize) {
     let m = &P::ISOGENY_MAP;
@@ -692,6 +921,7 @@ fn main() {
     }
     if sel("sha") { sha_lines(&mut rng, t, &mut out); }
     if sel("h2f") { h2f_lines(&mut rng, t, &mut out); }
+    if sel("xof") { xof_lines(&mut rng, t, &mut out); }
     if sel("parity") { parity_lines(&mut rng, t, &mut out); }
     if sel("rfc") {
         rfc_xmd_vectors(&mut out, "expand_message_xmd_SHA256_38.json");
@@ -715,6 +945,29 @@ fn main() {
     cfg_sw::<ToySwu49>(&mut out, "t49", "0");
     cfg_ell::<ToyEll101>(&mut out, "e101", "b");
     cfg_ell::<JubjubEll>(&mut out, "jub", &hex_limbs(ark_test_curves::ed_on_bls12_381::Fr::MODULUS.as_ref()));
+    // invalid configurations (headers; the lines that use them are in the `chk` sub-stream)
+    cfg_sw::<ToyZsq127>(&mut out, "zsq127", "0");
+    cfg_sw::<ToyZ0x127>(&mut out, "z0x127", "0");
+    cfg_sw::<ToyB0x127>(&mut out, "invb0", "0");
+    cfg_sw::<ToyTorsG127>(&mut out, "torsg", "0");
+    cfg_sw::<ToyTorsZsq127>(&mut out, "torszsq", "0");
+    cfg_sw::<ToyTorsInf127>(&mut out, "torsinf", "0");
+    cfg_wb::<ToyIso2Pert127>(&mut out, "wbpert", "torsg", "1", "0");
+    cfg_wb::<ToyIso2Zsq127>(&mut out, "wbswu", "torszsq", "1", "0");
+    cfg_wb::<ToyIso2Inf127>(&mut out, "wbid", "torsinf", "1", "0");
+    cfg_ell::<EllZsq127>(&mut out, "ezsq", "0");
+    cfg_ell::<EllZ0x127>(&mut out, "ez0", "0");
+    cfg_ell::<EllB0x127>(&mut out, "eb0", "0");
+    cfg_ell::<EllKsq101>(&mut out, "eksq", "0");
+    cfg_ell::<EllJonk101>(&mut out, "ejonk", "0");
+    // `WBMap::check_parameters` with the generator it applies the isogeny to (also headers: the driver records the verdict per id)
+    chk_wb::<bls::g1::Config>(&mut out, "g1");
+    chk_wb::<bls::g2::Config>(&mut out, "g2");
+    chk_wb::<ToyWb127>(&mut out, "t127wb");
+    chk_wb::<ToyIso2Cod127>(&mut out, "iso2");          // generator (1, 0) = the kernel point: the pole branch of `apply`
+    chk_wb::<ToyIso2Pert127>(&mut out, "wbpert");       // image of the generator off the codomain
+    chk_wb::<ToyIso2Zsq127>(&mut out, "wbswu");         // `SWUMap::check_parameters().unwrap()` on invalid SWU parameters
+    chk_wb::<ToyIso2Inf127>(&mut out, "wbid");          // generator = the point at infinity: the `None` arm of `apply`
 
     if sel("rfc") {
         rfc_hash_vectors::<bls::g1::Config>(&mut out, "g1", "BLS12381G1_XMD-SHA-256_SSWU_RO_.json");
@@ -749,6 +1002,52 @@ fn main() {
         us.extend(edge_elems::<JFq>(&mut rng, if t { 3000 } else { 500 }));
         for u in us { ell_line::<JubjubEll>(&mut out, "jub", u); }
         for (d, msg) in pairs(&mut rng, false, if t { 100 } else { 3 }) { ehash_line::<JubjubEll>(&mut out, "jub", &d, &msg); }
+    }
+    if sel("chk") {
+        // `MapToCurveBasedHasher::new` on every configuration, valid or not
+        new_wb::<bls::g1::Config>(&mut out, "g1");
+        new_wb::<bls::g2::Config>(&mut out, "g2");
+        new_sw::<bls::g1_swu_iso::SwuIsoConfig>(&mut out, "g1iso");
+        new_sw::<bls::g2_swu_iso::SwuIsoConfig>(&mut out, "g2iso");
+        new_sw::<ToySwu127>(&mut out, "t127");
+        new_sw::<ToyWbIso127>(&mut out, "t127iso");
+        new_wb::<ToyWb127>(&mut out, "t127wb");
+        new_sw::<ToyTors127>(&mut out, "tors127");
+        new_sw::<ToyInv127>(&mut out, "inv127");
+        new_sw::<ToyWb127>(&mut out, "inva0");
+        new_wb::<ToyIso2Cod127>(&mut out, "iso2");
+        new_sw::<ToySwu49>(&mut out, "t49");
+        new_ell::<ToyEll127>(&mut out, "e127");
+        new_ell::<ToyEll101>(&mut out, "e101");
+        new_ell::<JubjubEll>(&mut out, "jub");
+        new_sw::<ToyZsq127>(&mut out, "zsq127");
+        new_sw::<ToyZ0x127>(&mut out, "z0x127");
+        new_sw::<ToyB0x127>(&mut out, "invb0");
+        new_sw::<ToyTorsG127>(&mut out, "torsg");
+        new_sw::<ToyTorsZsq127>(&mut out, "torszsq");
+        new_sw::<ToyTorsInf127>(&mut out, "torsinf");
+        new_wb::<ToyIso2Pert127>(&mut out, "wbpert");
+        new_wb::<ToyIso2Zsq127>(&mut out, "wbswu");
+        new_wb::<ToyIso2Inf127>(&mut out, "wbid");
+        new_ell::<EllZsq127>(&mut out, "ezsq");
+        new_ell::<EllZ0x127>(&mut out, "ez0");
+        new_ell::<EllB0x127>(&mut out, "eb0");
+        new_ell::<EllKsq101>(&mut out, "eksq");
+        new_ell::<EllJonk101>(&mut out, "ejonk");
+        // what `map_to_curve` does on the invalid configurations: every u of the toy field
+        for u in all_elems::<FDT127>() { swu_line::<ToyZsq127>(&mut out, "zsq127", u); }
+        for u in all_elems::<FDT127>() { swu_line::<ToyZ0x127>(&mut out, "z0x127", u); }
+        for u in all_elems::<FDT127>() { swu_line::<ToyB0x127>(&mut out, "invb0", u); }
+        for u in all_elems::<FDT127>() { swu_line::<ToyWb127>(&mut out, "inva0", u); }
+        for u in all_elems::<FDT127>() { swu_line::<ToyTorsZsq127>(&mut out, "torszsq", u); }
+        for u in all_elems::<FDT127>() { wb_line::<ToyIso2Pert127>(&mut out, "wbpert", u); }
+        for u in all_elems::<FDT127>() { wb_line::<ToyIso2Zsq127>(&mut out, "wbswu", u); }
+        for u in all_elems::<FDT127>() { wb_line::<ToyIso2Inf127>(&mut out, "wbid", u); }
+        for u in all_elems::<FDT127>() { ell_line::<EllZsq127>(&mut out, "ezsq", u); }
+        for u in all_elems::<FDT127>() { ell_line::<EllZ0x127>(&mut out, "ez0", u); }
+        for u in all_elems::<FDT127>() { ell_line::<EllB0x127>(&mut out, "eb0", u); }
+        for u in all_elems::<FDT101x>() { ell_line::<EllKsq101>(&mut out, "eksq", u); }
+        for u in all_elems::<FDT101x>() { ell_line::<EllJonk101>(&mut out, "ejonk", u); }
     }
     out.flush();
 }
